@@ -41,20 +41,24 @@ def rows():
 class Prop:
     id = "C44"
     level = "exploration"
-    engine = "VT"
+    engine = "VT (+TH: one scenario in 250 applies one operator object from 2-3 controlled threads at once)"
     quick_runs = 40000
     thorough_runs = 1500000
     rule = ("for a seeded catalogue row the operator function object(s) it creates are captured once (through a placeholder source whose "
             "pipe() records them) and applied to 2-3 independent sources whose subscriptions, unsubscriptions and connect()/disconnect "
             "calls are interleaved at seeded virtual times; a twin world builds fresh operator objects per source with the same history. "
             "Per-subscriber notifications (values, times) and every source's subscription intervals must be identical. Distinct = (row, "
-            "history shape, first subscriber's kinds); non-trivial = at least two applications each delivered a notification.")
+            "history shape, first subscriber's kinds); non-trivial = at least two applications each delivered a notification. One scenario in 250 runs under the TH "
+            "engine: one operator object applied by 2-3 controlled threads at once, each to a source of its own, with a single-pre-emption sweep over the "
+            "application code; every result must deliver what a fresh operator on the same source delivers.")
     assumptions = ["stateless deterministic callbacks; explicitly shared subject instances (multicast(subject=...)) are the user's own sharing and are excluded",
                    "rows whose build does not go through source.pipe(...) (factory forms rx.*) are not operator functions and are listed as uncovered"]
     stubs = []
     names = rows()
 
     def generate(self, rng, tier):
+        if rng.random() < 0.004:
+            return self.gen_th(rng)
         ctx = catalog.Ctx(rng, hot_p=0.4, falsy_p=0.2, sync_p=0.1)
         name = rng.choice(self.names) if rng.random() < 0.6 else rng.choice(
             ["publish_ref_count", "replay_ref_count", "publish_value_ref_count", "share", "publish", "replay", "publish_value",
@@ -105,7 +109,91 @@ class Prop:
         w.run(sc["horizon"])
         return w, recs
 
+    # ------------------------------------------------------------------ concurrent application (TH engine)
+    TH_OPS = ["map", "filter", "take", "skip", "start_with", "scan", "pairwise", "to_list", "distinct", "publish", "share", "replay", "take_last", "delay0"]
+
+    @staticmethod
+    def th_op(name):
+        from reactivex import operators as ops
+        return {"map": lambda: ops.map(lambda v: ("m", v)), "filter": lambda: ops.filter(lambda v: v % 2 == 0), "take": lambda: ops.take(3),
+                "skip": lambda: ops.skip(1), "start_with": lambda: ops.start_with(-1), "scan": lambda: ops.scan(lambda a, v: a + v, 0),
+                "pairwise": ops.pairwise, "to_list": ops.to_list, "distinct": ops.distinct, "publish": ops.publish, "share": ops.share,
+                "replay": lambda: ops.replay(buffer_size=2), "take_last": lambda: ops.take_last(2), "delay0": lambda: ops.take_while(lambda v: True)}[name]()
+
+    def gen_th(self, rng):
+        from simlib import th
+        return {"mode": "th", "op": rng.choice(self.TH_OPS), "threads": rng.choice([2, 2, 3]), "n": rng.randrange(2, 5),
+                "sched": {"seed": rng.getrandbits(32), "k": 1, "sweep": True, "spurious": 0.0, "drift": 0.0, **({"opcodes": True} if rng.random() < 0.3 else {})}}
+
+    def exec_th(self, sc):
+        from simlib import th
+        if sc["sched"].get("sweep") and "cps" not in sc:
+            return th.sweep(self.exec_th, sc, cap=50)
+        out = Outcome()
+        holder = {}
+
+        def factory():
+            st = holder["st"] = {"res": {}, "got": {}, "want": {}}
+
+            def body(sim, shim):
+                import reactivex as rx
+                from reactivex.scheduler import ImmediateScheduler
+                op = self.th_op(sc["op"])  # ONE operator function object
+                srcs = [rx.from_iterable([i * 100 + k for k in range(sc["n"])], ImmediateScheduler()) for i in range(sc["threads"])]
+                sim.mark()
+
+                def applier(i):
+                    def run():
+                        st["res"][i] = srcs[i].pipe(op)  # applied concurrently, each thread to a source of its own
+                    return run
+
+                for i in range(sc["threads"]):
+                    sim.spawn(applier(i), "app%d" % i, "work")
+                for _ in range(50):
+                    if len(st["res"]) == sc["threads"]:
+                        break
+                    sim.sleep(0.001)
+
+                def collect(o):
+                    log = []
+                    o.subscribe(lambda v: log.append(("N", vt.vkey(v))), lambda e: log.append(("E", type(e).__name__)), lambda: log.append(("C",)))
+                    if isinstance(o, ConnectableObservable):
+                        o.connect()
+                    return log
+
+                for i in sorted(st["res"]):
+                    st["got"][i] = collect(st["res"][i])
+                    st["want"][i] = collect(srcs[i].pipe(self.th_op(sc["op"])))  # a fresh operator for this source
+
+            return body
+
+        sim, cps = th.explore(sc, factory, out, focus=("internal/curry.py", "reactivex/operators/", "observable/observable.py", "reactivex/pipe.py"))
+        st = holder["st"]
+        out.digest = ("th", sc["op"], sc["threads"], sc["n"], th.interleaving_digest(sim))
+        out.nontrivial = sim.faults["preempt"] > 0 and len(st["got"]) >= 2
+        out.probes["th:concurrent_application"] += 1
+        desc = "operator %s applied by %d threads at once, each to a source of its own (%d elements) cps=%s" % (sc["op"], sc["threads"], sc["n"], cps)
+        if sim.failure:
+            out.bad(sim.failure[0], "%s: %s" % (desc, sim.failure[1]))
+        elif sim.thread_errors:
+            out.bad("thread-exception", "%s: %r" % (desc, sim.thread_errors[0]))
+        elif len(st["res"]) != sc["threads"]:
+            out.bad("application-did-not-return", "%s: %d applications returned" % (desc, len(st["res"])))
+        else:
+            for i in sorted(st["got"]):
+                if st["got"][i] != st["want"][i]:
+                    out.bad("shared-operator-differs", "%s: application %d delivers %s, a fresh operator on the same source %s" % (desc, i, st["got"][i][:8], st["want"][i][:8]))
+                    break
+        if out.viol:
+            wsc = dict(sc)
+            wsc["cps"] = cps
+            out.witness = wsc
+        out.info = {"scenario": desc}
+        return out
+
     def execute(self, sc):
+        if sc.get("mode") == "th":
+            return self.exec_th(sc)
         out = Outcome()
         out.sim_time = 2 * sc["horizon"]
         a = self.run(sc, True)
